@@ -613,7 +613,7 @@ def observe(op, fault_at, kind):
     rec["leaked"] = max(len(lt), len(lf))
     rec["fired"] = INJ.fired
     rec["ncalls"] = INJ.count
-    rec["trace"] = list(INJ.trace)
+    rec["trace"] = list(INJ.trace[:400])
     after = jdump(op.doc) if op.doc is not None else None
     rec["doc_changed"] = before != after
     if rec["doc_changed"]:
@@ -668,6 +668,8 @@ def run_op(spec):
         want = spec.get("faults", "all")
         if want == "all":
             ks = list(range(n))
+        elif want == "late":
+            ks = [max(0, n - 3)]  # one fault, after (nearly) everything has been walked
         elif isinstance(want, int):
             ks = list(range(n)) if n <= want else sorted(set([0, 1, n - 2, n - 1] + [int(i * n / want) for i in range(want)]))
             ks = [k for k in ks if 0 <= k < n]
